@@ -5,20 +5,20 @@
 package input
 
 //@ func newPtr
-//@   property C09 C02 C03 C04 C05 C06 C07 C10 C11 C13 C14 C15 C16 C18
+//@   property C09 C02 C03 C04 C05 C06 C07 C10 C11 C13 C14 C15 C16 C18 C08 C12
 //@   ensures [nil_iff] (result == nil) <==> (i == nil)
 //@   ensures [value] i != nil ==> *result == *i
 
 // (The merge functions carry every property whose statement ranges over multi-file configurations: the Input that the
 // validators and compile steps see is the merged one.)
 //@ func mergePtr
-//@   property C09 C02 C03 C04 C05 C13 C14 C15 C18 C06 C07 C10 C11 C16
+//@   property C09 C02 C03 C04 C05 C13 C14 C15 C18 C06 C07 C10 C11 C16 C08 C12
 //@   ensures [nil_iff] (result == nil) <==> (a == nil && b == nil)
 //@   ensures [later_wins] b != nil ==> *result == *b
 //@   ensures [earlier_kept] b == nil && a != nil ==> *result == *a
 
 //@ func mergeMap
-//@   property C09 C08 C02 C03 C04 C05 C13 C14 C15 C06 C07 C10 C11 C16 C18
+//@   property C09 C08 C02 C03 C04 C05 C13 C14 C15 C06 C07 C10 C11 C16 C18 C12
 //@   ensures [nil_iff] (result == nil) <==> (a == nil && b == nil)
 //@   ensures [dom] forall k string :: (k in result) <==> (k in a || k in b)
 //@   ensures [later_wins] forall k string :: k in b ==> result[k] == b[k]
@@ -55,7 +55,7 @@ package input
 //@      len(x) == len(y) && ((x == nil) <==> (y == nil)) && (forall j int :: 0 <= j && j < len(x) ==> x[j] == y[j])
 
 //@ func mergeMeta
-//@   property C09 C02 C03 C04 C05 C13 C14 C15 C06 C07 C10 C11 C16 C18
+//@   property C09 C02 C03 C04 C05 C13 C14 C15 C06 C07 C10 C11 C16 C18 C08 C12
 //@   ensures [pkg] optMerged(result.Pkg, m1.Pkg, m2.Pkg)
 //@   ensures [container_type] optMerged(result.ContainerType, m1.ContainerType, m2.ContainerType)
 //@   ensures [container_constructor] optMerged(result.ContainerConstructor, m1.ContainerConstructor, m2.ContainerConstructor)
@@ -65,12 +65,12 @@ package input
 //@   ensures [functions C09 C15 C03] mapMergedSS(result.Functions, m1.Functions, m2.Functions)
 
 //@ func mergeArgs
-//@   property C09 C02 C03 C04 C05 C13 C14 C15 C06 C07 C10 C11 C16 C18
+//@   property C09 C02 C03 C04 C05 C13 C14 C15 C06 C07 C10 C11 C16 C18 C08 C12
 //@   ensures [later_nonempty_replaces] len(b) > 0 ==> sameAnys(result, b)
 //@   ensures [earlier_kept] len(b) == 0 ==> sameAnys(result, a)
 
 //@ func mergeService pure
-//@   property C09 C04 C02 C03 C05 C13 C14 C15 C06 C07 C10 C11 C16 C18
+//@   property C09 C04 C02 C03 C05 C13 C14 C15 C06 C07 C10 C11 C16 C18 C08 C12
 //@   ensures [getter] optMerged(result.Getter, s1.Getter, s2.Getter)
 //@   ensures [must_getter] optMergedBool(result.MustGetter, s1.MustGetter, s2.MustGetter)
 //@   ensures [type] optMerged(result.Type, s1.Type, s2.Type)
@@ -91,7 +91,7 @@ package input
 //@   ensures [tags_later_by_pos] forall q int :: len(s1.Tags) <= q && q < len(s1.Tags) + len(s2.Tags) ==> result.Tags[q] == s2.Tags[q - len(s1.Tags)]
 
 //@ func mergeServices
-//@   property C09 C02 C03 C04 C05 C13 C14 C15 C06 C07 C10 C11 C16 C18
+//@   property C09 C02 C03 C04 C05 C13 C14 C15 C06 C07 C10 C11 C16 C18 C08 C12
 //@   ensures [nonnil] result != nil
 //@   ensures [dom] forall k string :: (k in result) <==> (k in a || k in b)
 //@   ensures [only_earlier] forall k string :: k in a && !(k in b) ==> result[k] == a[k]
@@ -109,7 +109,7 @@ package input
 //@     invariant [both] forall k string :: k in visited && k in a ==> r[k] == mergeService(a[k], b[k])
 
 //@ func Merge pure
-//@   property C09 C04 C02 C03 C05 C13 C14 C15 C18 C06 C07 C10 C11 C16
+//@   property C09 C04 C02 C03 C05 C13 C14 C15 C18 C06 C07 C10 C11 C16 C08 C12
 //@   ensures [version] optMergedVersion(result.Version, i1.Version, i2.Version)
 //@   ensures [meta_pkg] optMerged(result.Meta.Pkg, i1.Meta.Pkg, i2.Meta.Pkg)
 //@   ensures [meta_container_type] optMerged(result.Meta.ContainerType, i1.Meta.ContainerType, i2.Meta.ContainerType)
@@ -373,13 +373,16 @@ package input
 
 // ---- C11 layer 2: each validator accepts exactly when the documented conditions hold (code regexes here;
 // their languages are tied to the documented grammar by the lang_* lemmas above).
+// The validators decide what an *accepted* configuration is and what counts as a validation failure, so besides C11 they
+// carry every property that speaks about accepted configurations, about the reported errors or about the exit status
+// (what is compiled later trusts that the attributes have the validated shape).
 
 //@ func validateRegexField inline
 //@ func validateOptionalPtrField inline
 //@ func newErrUnsupportedType inline
 
 //@ func ValidateParams pure
-//@   property C11
+//@   property C11 C02 C03 C04 C05 C06 C07 C08 C10 C13 C14 C15 C16
 //@   reports_all
 //@   ensures [accept_sound @a] result == nil ==> (forall n string :: n in i.Params ==> matches(n, regexParamName) && types.IsPrimitive(i.Params[n]))
 //@   ensures [accept_complete @b] (forall n string :: n in i.Params ==> matches(n, regexParamName) && types.IsPrimitive(i.Params[n])) ==> result == nil
@@ -389,20 +392,20 @@ package input
 //@     invariant [b @b] (forall q int :: 0 <= q && q < $i ==> matches(maps.Keys(i.Params)[q], regexParamName) && types.IsPrimitive(i.Params[maps.Keys(i.Params)[q]])) ==> len(errs) == 0
 
 //@ func ValidateMetaPkg pure
-//@   property C11
+//@   property C11 C02 C03 C04 C05 C06 C07 C08 C10 C13 C14 C15 C16
 //@   reports_all
 //@   ensures [accept_iff] (result == nil) <==> (m.Pkg == nil || matches(*m.Pkg, regexpMetaPkg))
 //@ func ValidateMetaContainerType pure
-//@   property C11
+//@   property C11 C02 C03 C04 C05 C06 C07 C08 C10 C13 C14 C15 C16
 //@   reports_all
 //@   ensures [accept_iff] (result == nil) <==> (m.ContainerType == nil || matches(*m.ContainerType, regexpMetaContainerType))
 //@ func ValidateMetaContainerConstructor pure
-//@   property C11
+//@   property C11 C02 C03 C04 C05 C06 C07 C08 C10 C13 C14 C15 C16
 //@   reports_all
 //@   ensures [accept_iff] (result == nil) <==> (m.ContainerConstructor == nil || matches(*m.ContainerConstructor, regexpMetaContainerConstructor))
 
 //@ func ValidateMetaImports pure
-//@   property C11 C14
+//@   property C11 C14 C02 C03 C04 C05 C06 C07 C08 C10 C13 C15 C16
 //@   reports_all
 //@   ensures [accept_sound @a] result == nil ==> (forall a string :: a in m.Imports ==> matches(a, regexMetaImportAlias) && matches(m.Imports[a], regexMetaImport))
 //@   ensures [accept_complete @b] (forall a string :: a in m.Imports ==> matches(a, regexMetaImportAlias) && matches(m.Imports[a], regexMetaImport)) ==> result == nil
@@ -412,7 +415,7 @@ package input
 //@     invariant [b @b] (forall q int :: 0 <= q && q < $i ==> matches(maps.Keys(m.Imports)[q], regexMetaImportAlias) && matches(m.Imports[maps.Keys(m.Imports)[q]], regexMetaImport)) ==> len(errs) == 0
 
 //@ func ValidateMetaFunctions pure
-//@   property C11
+//@   property C11 C02 C03 C04 C05 C06 C07 C08 C10 C13 C14 C15 C16
 //@   reports_all
 //@   ensures [accept_sound @a] result == nil ==> (forall f string :: f in m.Functions ==> matches(f, regexMetaFn) && matches(m.Functions[f], regexMetaGoFn))
 //@   ensures [accept_complete @b] (forall f string :: f in m.Functions ==> matches(f, regexMetaFn) && matches(m.Functions[f], regexMetaGoFn)) ==> result == nil
@@ -426,40 +429,40 @@ package input
 //@                 && (forall n string :: (n in reservedGetters) <==> isMethodOf(n, "github.com/gontainer/gontainer-helpers/v3/container.Container"))
 
 //@ func ValidateServiceName pure
-//@   property C11
+//@   property C11 C02 C03 C04 C05 C06 C07 C08 C10 C13 C14 C15 C16
 //@   reports_all
 //@   ensures [accept_iff] (result == nil) <==> matches(n, regexServiceName)
 
 // creation-method rules: something must create the service; constructor and value exclude each other; arguments need a constructor
 //@ func ValidateConstructorType pure
-//@   property C11
+//@   property C11 C02 C03 C04 C05 C06 C07 C08 C10 C13 C14 C15 C16
 //@   reports_all
 //@   ensures [accept_iff] (result == nil) <==>
 //@        (!(s.Constructor == nil && s.Value == nil && s.Type == nil) && !(s.Constructor != nil && s.Value != nil) && !(len(s.Args) > 0 && s.Constructor == nil))
 
 // getter: not a method of the embedded container, no "Must" prefix, no "InContext" suffix, a Go identifier (C13, C11)
 //@ func ValidateServiceGetter pure
-//@   property C11 C13
+//@   property C11 C13 C02 C03 C04 C05 C06 C07 C08 C10 C14 C15 C16
 //@   reports_all
 //@   ensures [accept_iff] (result == nil) <==> (s.Getter == nil ||
 //@        (!isMethodOf(*s.Getter, "github.com/gontainer/gontainer-helpers/v3/container.Container") && *s.Getter != "Container"
 //@         && !hasPrefix(*s.Getter, "Must") && !hasSuffix(*s.Getter, "InContext") && matches(*s.Getter, regexServiceGetter)))
 
 //@ func ValidateServiceType pure
-//@   property C11
+//@   property C11 C02 C03 C04 C05 C06 C07 C08 C10 C13 C14 C15 C16
 //@   reports_all
 //@   ensures [accept_iff] (result == nil) <==> (s.Type == nil || matches(*s.Type, regexServiceType))
 //@ func ValidateServiceValue pure
-//@   property C11
+//@   property C11 C02 C03 C04 C05 C06 C07 C08 C10 C13 C14 C15 C16
 //@   reports_all
 //@   ensures [accept_iff] (result == nil) <==> (s.Value == nil || matches(*s.Value, regexServiceValue))
 //@ func ValidateServiceConstructor pure
-//@   property C11
+//@   property C11 C02 C03 C04 C05 C06 C07 C08 C10 C13 C14 C15 C16
 //@   reports_all
 //@   ensures [accept_iff] (result == nil) <==> (s.Constructor == nil || matches(*s.Constructor, regexServiceConstructor))
 
 //@ func ValidateServiceArgs pure
-//@   property C11
+//@   property C11 C02 C03 C04 C05 C06 C07 C08 C10 C13 C14 C15 C16
 //@   reports_all
 //@   ensures [accept_sound @a] result == nil ==> (forall j int :: 0 <= j && j < len(s.Args) ==> types.IsPrimitive(s.Args[j]))
 //@   ensures [accept_complete @b] (forall j int :: 0 <= j && j < len(s.Args) ==> types.IsPrimitive(s.Args[j])) ==> result == nil
@@ -473,7 +476,7 @@ package input
 //@ spec callOKUpTo(c Call, k int) bool = matches(c.Method, regexServiceCallName) && (forall a int :: 0 <= a && a < k ==> types.IsPrimitive(c.Args[a]))
 
 //@ func ValidateServiceCalls pure
-//@   property C11
+//@   property C11 C02 C03 C04 C05 C06 C07 C08 C10 C13 C14 C15 C16
 //@   reports_all
 //@   ensures [accept_sound @a] result == nil ==> (forall c int :: 0 <= c && c < len(s.Calls) ==> callOK(s.Calls[c]))
 //@   ensures [accept_complete @b] (forall c int :: 0 <= c && c < len(s.Calls) ==> callOK(s.Calls[c])) ==> result == nil
@@ -486,7 +489,7 @@ package input
 //@     invariant [b @b] callOKUpTo(c, $i) ==> allNil(cErrs, len(cErrs))
 
 //@ func ValidateServiceFields pure
-//@   property C11
+//@   property C11 C02 C03 C04 C05 C06 C07 C08 C10 C13 C14 C15 C16
 //@   reports_all
 //@   ensures [accept_sound @a] result == nil ==> (forall n string :: n in s.Fields ==> matches(n, regexServiceFieldName) && types.IsPrimitive(s.Fields[n]))
 //@   ensures [accept_complete @b] (forall n string :: n in s.Fields ==> matches(n, regexServiceFieldName) && types.IsPrimitive(s.Fields[n])) ==> result == nil
@@ -502,7 +505,7 @@ package input
 
 // tags: every name matches the grammar and no name occurs twice
 //@ func ValidateServiceTags pure
-//@   property C11 C04
+//@   property C11 C04 C02 C03 C05 C06 C07 C08 C10 C13 C14 C15 C16
 //@   reports_all
 //@   ensures [accept_sound_names @a] result == nil ==> (forall j int :: 0 <= j && j < len(s.Tags) ==> matches(s.Tags[j].Name, regexServiceTag))
 //@   ensures [accept_sound_unique @a] result == nil ==> (forall n string :: occ(s.Tags, n, len(s.Tags)) <= 1)
@@ -534,7 +537,7 @@ package input
 
 // acceptance also means: no two services that get getter methods share a getter (C13: generated methods never collide)
 //@ func ValidateServices pure
-//@   property C11 C15 C13
+//@   property C11 C15 C13 C02 C03 C04 C05 C06 C07 C08 C10 C14 C16
 //@   reports_all
 //@   ensures [accept_sound @a] result == nil ==> (forall n string :: n in i.Services ==> svcOK(n, i.Services[n]))
 //@   ensures [accept_sound_unique_getters @u] result == nil ==> (forall a int, b int :: 0 <= a && a < b && b < len(maps.Keys(i.Services)) && hasGetter(svcAt(i, a)) && hasGetter(svcAt(i, b)) ==> *svcAt(i, a).Getter != *svcAt(i, b).Getter)
@@ -564,15 +567,15 @@ package input
 //@     invariant [r8] $i > 8 ==> sErrs[9] == ValidateServiceTags(s)
 
 //@ func ValidateDecoratorTag pure
-//@   property C11 C04
+//@   property C11 C04 C02 C03 C05 C06 C07 C08 C10 C13 C14 C15 C16
 //@   reports_all
 //@   ensures [accept_iff] (result == nil) <==> matches(d.Tag, regexDecoratorsTag)
 //@ func ValidateDecoratorMethod pure
-//@   property C11
+//@   property C11 C02 C03 C04 C05 C06 C07 C08 C10 C13 C14 C15 C16
 //@   reports_all
 //@   ensures [accept_iff] (result == nil) <==> matches(d.Decorator, regexDecoratorMethod)
 //@ func ValidateDecoratorArgs pure
-//@   property C11
+//@   property C11 C02 C03 C04 C05 C06 C07 C08 C10 C13 C14 C15 C16
 //@   reports_all
 //@   ensures [accept_sound @a] result == nil ==> (forall j int :: 0 <= j && j < len(d.Args) ==> types.IsPrimitive(d.Args[j]))
 //@   ensures [accept_complete @b] (forall j int :: 0 <= j && j < len(d.Args) ==> types.IsPrimitive(d.Args[j])) ==> result == nil
@@ -584,7 +587,7 @@ package input
 //@ spec decOK(d Decorator) bool = ValidateDecoratorTag(d) == nil && ValidateDecoratorMethod(d) == nil && ValidateDecoratorArgs(d) == nil
 
 //@ func ValidateDecorators pure
-//@   property C11 C04
+//@   property C11 C04 C02 C03 C05 C06 C07 C08 C10 C13 C14 C15 C16
 //@   reports_all
 //@   ensures [accept_sound @a] result == nil ==> (forall j int :: 0 <= j && j < len(i.Decorators) ==> decOK(i.Decorators[j]))
 //@   ensures [accept_complete @b] (forall j int :: 0 <= j && j < len(i.Decorators) ==> decOK(i.Decorators[j])) ==> result == nil
@@ -593,7 +596,7 @@ package input
 //@     invariant [b @b] (forall j int :: 0 <= j && j < $i ==> decOK(i.Decorators[j])) ==> allNil(errs, len(errs))
 
 //@ func ValidateMeta pure
-//@   property C11
+//@   property C11 C02 C03 C04 C05 C06 C07 C08 C10 C13 C14 C15 C16
 //@   reports_all
 //@   ensures [accept_iff] (result == nil) <==> (ValidateMetaPkg(i.Meta) == nil && ValidateMetaContainerType(i.Meta) == nil
 //@        && ValidateMetaContainerConstructor(i.Meta) == nil && ValidateMetaImports(i.Meta) == nil && ValidateMetaFunctions(i.Meta) == nil)
